@@ -4,9 +4,17 @@ Property theorems about `Model/Sage.lean` (dual rows).
 -/
 import SageoptModel.Model.Sage
 import SageoptModel.Lemmas.ExpCone
+import SageoptModel.Lemmas.SageSem
+import SageoptModel.Lemmas.SageDualScale
+import SageoptModel.Lemmas.SageDualFeas
+import SageoptModel.Lemmas.SageDualExt
 
 namespace Sageopt.Props.C02
-open Sageopt Sageopt.Sage Sageopt.Analysis
+open Sageopt Sageopt.Sage Sageopt.Compile Sageopt.Solvers Sageopt.Analysis
+
+-- `conP_scale` keeps the hypothesis `hQ` of the target statement although the four allowed tags never
+-- reach the abstract predicate `Q`
+set_option linter.unusedVariables false
 
 /-- the relative-entropy row of the dual cone at a moment vector: with `v_i = t e^{a_i}`, `v_j = t e^{a_j}`
     and `z = v_i (a_i − a_j)` the point `(−z, v_j, v_i)` lies in the closed exponential cone — including the
@@ -24,5 +32,228 @@ theorem moment_exp_row (t ai aj : ℝ) (ht : 0 ≤ t) :
     have : t * Real.exp ai * (Real.exp aj / Real.exp ai) = t * Real.exp aj := by
       field_simp
     rw [this]
+
+/-- well-formed dual input -/
+structure WfDual (inp : DualIn) : Prop where
+  width : ∀ r ∈ inp.alpha, r.length = inp.n
+  vlen : inp.v.length = inp.alpha.length
+  idsU : inp.ids.map (·.i) = inp.ech.U
+  cover : ∀ p ∈ inp.ids,
+    (coverOf inp.ech p.i).length = inp.alpha.length ∧ p.i < inp.alpha.length ∧ p.i ∉ trueIdx (coverOf inp.ech p.i)
+  sizes : ∀ p ∈ inp.ids,
+    p.mu.length = (match inp.X with | some X => X.N | none => inp.n) ∧
+    (inp.settings.compactDual = false → p.epi.length = (trueIdx (coverOf inp.ech p.i)).length)
+  dom : ∀ X, inp.X = some X → domWf inp.n X
+  /-- the auxiliary Variables are fresh: their ids are pairwise distinct and do not occur in `v` -/
+  fresh : ((inp.ids.flatMap fun p => p.mu ++ p.epi)).Nodup ∧
+    ∀ id ∈ (inp.ids.flatMap fun p => p.mu ++ p.epi), ∀ vj ∈ inp.v, id ∉ vj.co.map (·.1)
+  idx : (inp.ids.map (·.i)).Nodup
+
+/-- cones over ℝ are closed under nonnegative scaling (used for the perspective rows `A μ_i + v_i b ∈ K`) -/
+theorem conP_scale (Q : CType → List ℝ → Prop) (hQ : ∀ t v (a : ℝ), 0 ≤ a → Q t v → Q t (v.map (a * ·)))
+    (ty : CType) (hty : ty ∈ [CType.zero, .pos, .soc, .exp]) (v : List ℝ) (a : ℝ) (ha : 0 ≤ a) (h : conP Q ty v) :
+    conP Q ty (v.map (a * ·)) :=
+  sd_conP_scale Q ty hty v a ha h
+
+/-- the explicit extension used in both theorems: it is a moment assignment, agrees with `σ₀` off the
+    auxiliary ids, and satisfies the compiled rows -/
+theorem dual_moment_extension (Q : CType → List ℝ → Prop) (inp : DualIn) (hwf : WfDual inp)
+    (rows : List CRow) (K : List Cone) (h : dualRows inp = .ok (rows, K))
+    (x xt : List ℝ) (hx : x.length = inp.n)
+    (hxt : match inp.X with
+      | none => xt = x
+      | some X => xt.length = X.N ∧ xt.take inp.n = x ∧ FeasBlocks (conP Q) X.K (domSlack X xt))
+    (t : ℝ) (ht : 0 ≤ t) (σ₀ : Nat → ℝ)
+    (hv : ∀ j, j < inp.alpha.length →
+      argVal σ₀ (inp.v.getD j (constE 0)) = t * Real.exp (rdot (inp.alpha.getD j []) x)) :
+    sd_Moment inp x xt t (sd_ext (sd_assoc inp σ₀ x xt) σ₀) ∧
+    (∀ id, id ∉ (inp.ids.flatMap fun p => p.mu ++ p.epi) → sd_ext (sd_assoc inp σ₀ x xt) σ₀ id = σ₀ id) ∧
+    FeasRows Q (sd_ext (sd_assoc inp σ₀ x xt) σ₀) rows K := by
+  have hM := sd_ext_moment inp hwf.vlen (fun p hp => (hwf.cover p hp).2.1) hwf.fresh.1 hwf.fresh.2 x xt t σ₀ hv
+  refine ⟨hM, fun id hid => ?_, ?_⟩
+  · apply sd_ext_not_mem
+    rw [sd_assoc_keys]
+    exact hid
+  · exact sd_dualRows_feas Q inp hwf.width hwf.vlen
+      (fun p hp => ⟨(hwf.cover p hp).1, (hwf.cover p hp).2.1⟩) hwf.sizes hwf.dom rows K h x xt hx hxt t ht _ hM
+
+/-- THE PROPERTY.  For every exponent matrix, every X in conic form over {+,0,S,e} (possibly lifted), every
+    point x of X (with lift x̃), every scale t ≥ 0, all sign information, all covers, both values of
+    `compact_dual` (and of the other settings), and every assignment σ₀ of the user's variables under which
+    `v` evaluates to the moment vector `t·exp(α x)` (v a Variable, or any affine image that reaches it):
+    σ₀ extends — by `μ_i = v_i·x̃` and, in the epigraph form, `epi_ij = v_i (α_i − α_j)·x` — to an assignment
+    satisfying the compiled dual SAGE constraint.  In particular the corner t = 0 uses the closed cone. -/
+theorem dual_admits_moments (Q : CType → List ℝ → Prop) (inp : DualIn) (hwf : WfDual inp)
+    (rows : List CRow) (K : List Cone) (h : dualRows inp = .ok (rows, K))
+    (x xt : List ℝ) (hx : x.length = inp.n)
+    (hxt : match inp.X with
+      | none => xt = x
+      | some X => xt.length = X.N ∧ xt.take inp.n = x ∧ FeasBlocks (conP Q) X.K (domSlack X xt))
+    (t : ℝ) (ht : 0 ≤ t) (σ₀ : Nat → ℝ)
+    (hv : ∀ j, j < inp.alpha.length →
+      argVal σ₀ (inp.v.getD j (constE 0)) = t * Real.exp (rdot (inp.alpha.getD j []) x)) :
+    ∃ σ : Nat → ℝ,
+      (∀ id, id ∉ (inp.ids.flatMap fun p => p.mu ++ p.epi) → σ id = σ₀ id) ∧
+      (∀ p ∈ inp.ids, ∀ k, k < p.mu.length →
+        σ (p.mu.getD k 0) = argVal σ₀ (inp.v.getD p.i (constE 0)) * xt.getD k 0) ∧
+      FeasRows Q σ rows K := by
+  obtain ⟨hM, hoff, hfeas⟩ := dual_moment_extension Q inp hwf rows K h x xt hx hxt t ht σ₀ hv
+  refine ⟨_, hoff, fun p hp k hk => ?_, hfeas⟩
+  rw [hM.mu p hp k hk, hv p.i (hwf.cover p hp).2.1]
+
+/-- consequence: minimising any linear functional over the dual SAGE constraint can never cut off a moment
+    vector of X — `inf {ℓ·v | v in the model} ≤ ℓ·(t·exp(α x))` -/
+theorem dual_never_cuts (Q : CType → List ℝ → Prop) (inp : DualIn) (hwf : WfDual inp)
+    (rows : List CRow) (K : List Cone) (h : dualRows inp = .ok (rows, K))
+    (x xt : List ℝ) (hx : x.length = inp.n)
+    (hxt : match inp.X with
+      | none => xt = x
+      | some X => xt.length = X.N ∧ xt.take inp.n = x ∧ FeasBlocks (conP Q) X.K (domSlack X xt))
+    (t : ℝ) (ht : 0 ≤ t) (σ₀ : Nat → ℝ)
+    (hv : ∀ j, j < inp.alpha.length →
+      argVal σ₀ (inp.v.getD j (constE 0)) = t * Real.exp (rdot (inp.alpha.getD j []) x))
+    (ℓ : List ℝ) :
+    ∃ σ : Nat → ℝ, FeasRows Q σ rows K ∧
+      (List.zipWith (fun l (vj : AffE) => l * argVal σ vj) ℓ inp.v).sum
+        = (List.zipWith (fun l (a : List Rat) => l * (t * Real.exp (rdot a x))) ℓ inp.alpha).sum := by
+  obtain ⟨hM, _, hfeas⟩ := dual_moment_extension Q inp hwf rows K h x xt hx hxt t ht σ₀ hv
+  refine ⟨_, hfeas, ?_⟩
+  apply sd_zipWith_sum_congr ℓ inp.v inp.alpha (argVal _) (fun a => t * Real.exp (rdot a x))
+  apply List.ext_getElem
+  · simp [hwf.vlen]
+  · intro j h1 h2
+    have hj : j < inp.alpha.length := by simpa using h2
+    have hj' : j < inp.v.length := by simpa using h1
+    have := hM.v j hj
+    simp only [List.getD, List.getElem?_eq_getElem hj, List.getElem?_eq_getElem hj', Option.getD_some] at this
+    simp [this]
+
+/-! ### non-vacuity: concrete instances -/
+
+def exAlpha : List (List Rat) := [[0], [1], [2]]
+def exV : List AffE := [varE 0, varE 1, varE 2]
+def exIds : List DIds := [⟨0, [3], []⟩, ⟨1, [4], []⟩, ⟨2, [5], []⟩]
+/-- `U = [0,1,2]` (no sign information), full default covers -/
+def exEch : Ech := ⟨[0, 1, 2], [], [], [(0, [false, true, true]), (1, [true, false, true]), (2, [true, true, false])]⟩
+
+/-- these are the covers `ExpCoverHelper` computes (without and with a domain) -/
+example : defaultEch exAlpha none false {} [] = exEch := by with_unfolding_all rfl
+example : defaultEch exAlpha none true {} [] = exEch := by with_unfolding_all rfl
+
+/-- ordinary dual SAGE cone for `α = (0, 1, 2)ᵀ`, `v` a Variable, compact form -/
+def exOrd : DualIn :=
+  { n := 1, alpha := exAlpha, v := exV, X := none, settings := {}, ech := exEch, ids := exIds, dummy := 6 }
+
+theorem exOrd_wf : WfDual exOrd where
+  width := by decide
+  vlen := rfl
+  idsU := rfl
+  cover := by decide
+  sizes := by decide
+  dom := by intro X h; cases h
+  fresh := by decide
+  idx := by decide
+
+def exOrdRows : List CRow :=
+  [⟨[(0, 1)], 0, false⟩, ⟨[(1, 1)], 0, false⟩, ⟨[(2, 1)], 0, false⟩,
+   ⟨[(3, 1)], 0, false⟩, ⟨[(1, 1)], 0, false⟩, ⟨[(0, 1)], 0, false⟩,
+   ⟨[(3, 2)], 0, false⟩, ⟨[(2, 1)], 0, false⟩, ⟨[(0, 1)], 0, false⟩,
+   ⟨[(4, -1)], 0, false⟩, ⟨[(0, 1)], 0, false⟩, ⟨[(1, 1)], 0, false⟩,
+   ⟨[(4, 1)], 0, false⟩, ⟨[(2, 1)], 0, false⟩, ⟨[(1, 1)], 0, false⟩,
+   ⟨[(5, -2)], 0, false⟩, ⟨[(0, 1)], 0, false⟩, ⟨[(2, 1)], 0, false⟩,
+   ⟨[(5, -1)], 0, false⟩, ⟨[(1, 1)], 0, false⟩, ⟨[(2, 1)], 0, false⟩]
+
+theorem exOrd_rows : dualRows exOrd = .ok (exOrdRows, ⟨.pos, 3⟩ :: List.replicate 6 ⟨.exp, 3⟩) := by
+  with_unfolding_all decide
+
+/-- the theorem applies: every moment vector `t·(1, eˣ, e²ˣ)` extends to a point of the compiled system -/
+example (Q : CType → List ℝ → Prop) (x t : ℝ) (ht : 0 ≤ t) :
+    ∃ σ : Nat → ℝ, σ 0 = t ∧ σ 1 = t * Real.exp x ∧ σ 2 = t * Real.exp (2 * x) ∧ σ 3 = t * x ∧
+      FeasRows Q σ exOrdRows (⟨.pos, 3⟩ :: List.replicate 6 ⟨.exp, 3⟩) := by
+  obtain ⟨σ, h1, h2, h3⟩ := dual_admits_moments Q exOrd exOrd_wf _ _ exOrd_rows [x] [x] rfl rfl t ht
+    (fun id => t * Real.exp ((id : ℝ) * x)) (by
+      intro j hj
+      have hj' : j = 0 ∨ j = 1 ∨ j = 2 := by have : j < 3 := hj; omega
+      rcases hj' with rfl | rfl | rfl <;> simp [exOrd, exV, exAlpha, varE, argVal, rdot])
+  refine ⟨σ, ?_, ?_, ?_, ?_, h3⟩
+  · rw [h1 0 (by decide)]; simp
+  · rw [h1 1 (by decide)]; simp
+  · rw [h1 2 (by decide)]; simp
+  · have := h2 ⟨0, [3], []⟩ List.mem_cons_self 0 (by decide)
+    simpa [exOrd, exV, varE, argVal] using this
+
+/-- the domain `X = {x ≤ 1}` in conic form: `−x + 1 ∈ ℝ₊` -/
+def exDom : Dom := { A := [[-1]], b := [1], K := [⟨.pos, 1⟩], N := 1 }
+
+/-- conditional dual SAGE cone over `X`, compact form -/
+def exCond : DualIn := { exOrd with X := some exDom }
+
+theorem exCond_wf : WfDual exCond where
+  width := by decide
+  vlen := rfl
+  idsU := rfl
+  cover := by decide
+  sizes := by decide
+  dom := by
+    intro X h
+    have : X = exDom := by cases h; rfl
+    subst this
+    unfold domWf
+    decide
+  fresh := by decide
+  idx := by decide
+
+def exCondRows : List CRow :=
+  [⟨[(0, 1)], 0, false⟩, ⟨[(1, 1)], 0, false⟩, ⟨[(2, 1)], 0, false⟩,
+   ⟨[(3, 1)], 0, false⟩, ⟨[(1, 1)], 0, false⟩, ⟨[(0, 1)], 0, false⟩,
+   ⟨[(3, 2)], 0, false⟩, ⟨[(2, 1)], 0, false⟩, ⟨[(0, 1)], 0, false⟩,
+   ⟨[(3, -1), (0, 1)], 0, false⟩,
+   ⟨[(4, -1)], 0, false⟩, ⟨[(0, 1)], 0, false⟩, ⟨[(1, 1)], 0, false⟩,
+   ⟨[(4, 1)], 0, false⟩, ⟨[(2, 1)], 0, false⟩, ⟨[(1, 1)], 0, false⟩,
+   ⟨[(4, -1), (1, 1)], 0, false⟩,
+   ⟨[(5, -2)], 0, false⟩, ⟨[(0, 1)], 0, false⟩, ⟨[(2, 1)], 0, false⟩,
+   ⟨[(5, -1)], 0, false⟩, ⟨[(1, 1)], 0, false⟩, ⟨[(2, 1)], 0, false⟩,
+   ⟨[(5, -1), (2, 1)], 0, false⟩]
+
+def exCondK : List Cone :=
+  [⟨.pos, 3⟩, ⟨.exp, 3⟩, ⟨.exp, 3⟩, ⟨.pos, 1⟩, ⟨.exp, 3⟩, ⟨.exp, 3⟩, ⟨.pos, 1⟩, ⟨.exp, 3⟩, ⟨.exp, 3⟩, ⟨.pos, 1⟩]
+
+theorem exCond_rows : dualRows exCond = .ok (exCondRows, exCondK) := by
+  with_unfolding_all decide
+
+/-- the theorem applies on the domain: for `x ≤ 1` the moment vector extends -/
+example (Q : CType → List ℝ → Prop) (x t : ℝ) (hx : x ≤ 1) (ht : 0 ≤ t) :
+    ∃ σ : Nat → ℝ, σ 0 = t ∧ σ 1 = t * Real.exp x ∧ σ 2 = t * Real.exp (2 * x) ∧
+      FeasRows Q σ exCondRows exCondK := by
+  obtain ⟨σ, h1, _, h3⟩ := dual_admits_moments Q exCond exCond_wf _ _ exCond_rows [x] [x] rfl
+    ⟨rfl, rfl, by
+      simp only [exDom, domSlack, rdot, FeasBlocks, conP, realP]
+      simp
+      linarith⟩ t ht
+    (fun id => t * Real.exp ((id : ℝ) * x)) (by
+      intro j hj
+      have hj' : j = 0 ∨ j = 1 ∨ j = 2 := by have : j < 3 := hj; omega
+      rcases hj' with rfl | rfl | rfl <;> simp [exCond, exOrd, exV, exAlpha, varE, argVal, rdot])
+  refine ⟨σ, ?_, ?_, ?_, h3⟩
+  · rw [h1 0 (by decide)]; simp
+  · rw [h1 1 (by decide)]; simp
+  · rw [h1 2 (by decide)]; simp
+
+/-- epigraph form (`compact_dual = False`): `_relent_epi_` Variables with ids 6…11 -/
+def exEpi : DualIn :=
+  { exOrd with settings := { compactDual := false },
+               ids := [⟨0, [3], [6, 7]⟩, ⟨1, [4], [8, 9]⟩, ⟨2, [5], [10, 11]⟩], dummy := 12 }
+
+theorem exEpi_wf : WfDual exEpi where
+  width := by decide
+  vlen := rfl
+  idsU := rfl
+  cover := by decide
+  sizes := by decide
+  dom := by intro X h; cases h
+  fresh := by decide
+  idx := by decide
+
+example : ∃ rows K, dualRows exEpi = .ok (rows, K) ∧ rows.length = 27 ∧ K.length = 10 := ⟨_, _, rfl, rfl, rfl⟩
 
 end Sageopt.Props.C02
